@@ -48,6 +48,11 @@ func c15GenCase(r *rand.Rand, nmut int, http bool) C15Case {
 	v := gen.NewVocab(c.NIDs, 3, 3)
 	c.Doc.Prefixed = r.Intn(2) == 0
 	c.Doc.OSeed = r.Int63()
+	c.Doc.Omit = r.Intn(2) == 0 // key-omission dimension
+	var sh *c15Shaper           // identifier-shape dimension
+	if r.Intn(2) == 0 {
+		sh = &c15Shaper{r: rand.New(rand.NewSource(r.Int63())), m: map[string]string{}}
+	}
 	maxN := 6
 	if http {
 		maxN = 26 // the handler stores in batches of 10: reach well beyond one batch
@@ -57,7 +62,7 @@ func c15GenCase(r *rand.Rand, nmut int, http bool) C15Case {
 		c.Doc.Txn = map[string][]model.Ent{}
 		nds := 1 + r.Intn(2)
 		for i := 0; i < nds; i++ {
-			c.Doc.Txn[[]string{"ta", "tb"}[i]] = c15GenEnts(r, v, r.Intn(4))
+			c.Doc.Txn[[]string{"ta", "tb"}[i]] = c15GenEnts(r, v, r.Intn(4), sh)
 		}
 	} else {
 		c.Doc.Kind = "stream"
@@ -65,7 +70,7 @@ func c15GenCase(r *rand.Rand, nmut int, http bool) C15Case {
 		if http && r.Intn(2) == 0 {
 			n = 10 + r.Intn(16)
 		}
-		c.Doc.Ents = c15GenEnts(r, v, n)
+		c.Doc.Ents = c15GenEnts(r, v, n, sh)
 	}
 	return c
 }
@@ -95,6 +100,15 @@ func (c C15Case) tags() (tags []string, nontrivial bool) {
 		tags = append(tags, "absolute-uris")
 	}
 	tags = append(tags, c.Doc.Kind)
+	if c.Doc.Omit && c15HasOmittable(c.allEnts()) {
+		tags = append(tags, "omitted-keys")
+	}
+	shapes := c15IDShapes(c.allEnts())
+	for _, n := range []string{"colon", "slash", "hash", "percent", "unicode", "punct"} {
+		if shapes[n] {
+			tags = append(tags, "id-shape-"+n)
+		}
+	}
 	if c.NMut > 0 {
 		tags = append(tags, "mutated")
 	}
@@ -386,6 +400,233 @@ func c15CheckDataset(s *c15Run, st *server.Store, ds *server.Dataset, md *model.
 		s.viol("stored-differs", "dataset "+name+" change feed differs from what the payload denotes", feedStr(md.Feed()), recStr(feed), nil)
 	}
 	s.ctx.Out.Stat("entities_compared", int64(len(got)+len(feed)))
+	c15SerialiseBack(s, st, ds, md, name)
+}
+
+// c15Serialise writes a collection the way the hub's read handlers do: the dataset's
+// context, each entity as the hub marshals it, a continuation element.
+func c15Serialise(ds *server.Dataset, ents []*server.Entity, token string) []byte {
+	var b bytes.Buffer
+	b.WriteByte('[')
+	cb, _ := json.Marshal(ds.GetContext())
+	b.Write(cb)
+	for _, e := range ents {
+		b.WriteByte(',')
+		eb, _ := json.Marshal(e)
+		b.Write(eb)
+	}
+	tb, _ := json.Marshal(token)
+	b.WriteString(`, {"id":"@continuation","token":` + string(tb) + `}]`)
+	return b.Bytes()
+}
+
+// c15ReadBack parses a serialised collection twice: with the hub's own parser (the
+// statement's clause) and as a foreign client does (plain JSON + the collection's own
+// context, no hub code). which: "listing" (compared as a set) or "feed" (as a sequence).
+func c15ReadBack(s *c15Run, st *server.Store, body []byte, what string) (hubView, clientView []obs.Rec, ok bool) {
+	s.ctx.Out.Stat("roundtrip_parses", 1)
+	if !json.Valid(body) {
+		s.viol("serialised-not-json", what+": the serialised collection is not valid JSON", "JSON", c15Short(body), body)
+		return nil, nil, false
+	}
+	ents, err, pan := c15ParseStream(st, body)
+	if pan != nil || err != nil {
+		s.viol("roundtrip-unparseable", fmt.Sprintf("the hub's parser does not read back %s: err=%v panic=%v", what, err, pan), "parsed", nil, body)
+		return nil, nil, false
+	}
+	for _, e := range ents {
+		if e.ID == "@continuation" {
+			s.ctx.Out.Stat("continuation_elements_parsed", 1)
+			continue
+		}
+		rec, p := c15Canon(st, e)
+		if p != nil {
+			s.viol("roundtrip-unparseable", fmt.Sprintf("entity read back from %s cannot be canonicalised: %v", what, p), nil, nil, body)
+			return nil, nil, false
+		}
+		hubView = append(hubView, rec)
+	}
+	clientView, _, cerr := c15ClientRead(body)
+	if cerr != nil {
+		s.viol("serialised-unreadable-with-its-own-context", fmt.Sprintf("%s: a client that expands the identifiers with the collection's own context cannot read it: %v", what, cerr), "readable", cerr.Error(), body)
+		return hubView, nil, false
+	}
+	return hubView, clientView, true
+}
+
+func c15SerialiseBack(s *c15Run, st *server.Store, ds *server.Dataset, md *model.Dataset, name string) {
+	res, err := ds.GetEntities("", -1)
+	if err != nil {
+		return // reported by the listing check
+	}
+	want := md.Latest(-1)
+	body := c15Serialise(ds, res.Entities, res.ContinuationToken)
+	if hv, cv, ok := c15ReadBack(s, st, body, "the serialised entities of dataset "+name); ok {
+		if msg := c15CompareSet(want, hv); msg != "" {
+			s.viol("roundtrip-differs", "serialised entities of dataset "+name+" parsed back by the hub: "+msg, feedStr(want), recStr(hv), body)
+		}
+		if msg := c15CompareSet(want, cv); msg != "" {
+			s.viol("roundtrip-differs-read-with-response-context", "serialised entities of dataset "+name+" expanded with their own context: "+msg, feedStr(want), recStr(cv), body)
+		}
+	}
+	ch, err := ds.GetChanges(0, 0, false)
+	if err != nil {
+		return
+	}
+	body = c15Serialise(ds, ch.Entities, strconv.FormatUint(ch.NextToken, 10))
+	if hv, cv, ok := c15ReadBack(s, st, body, "the serialised changes of dataset "+name); ok {
+		if !eqSeq(md.Feed(), hv) {
+			s.viol("roundtrip-differs", "serialised changes of dataset "+name+" parsed back by the hub differ from what was stored", feedStr(md.Feed()), recStr(hv), body)
+		}
+		if !eqSeq(md.Feed(), cv) {
+			s.viol("roundtrip-differs-read-with-response-context", "serialised changes of dataset "+name+" expanded with their own context differ from what was posted", feedStr(md.Feed()), recStr(cv), body)
+		}
+	}
+}
+
+// ---------- a foreign client's reading of a serialised collection
+
+func c15ClientExpand(v string, ns map[string]string) (string, error) {
+	if strings.HasPrefix(v, "http://") || strings.HasPrefix(v, "https://") {
+		return v, nil
+	}
+	i := strings.Index(v, ":")
+	if i < 0 {
+		exp, ok := ns["_"]
+		if !ok {
+			return "", fmt.Errorf("identifier %q has no prefix and the context declares no default prefix", v)
+		}
+		return exp + v, nil
+	}
+	exp, ok := ns[v[:i]]
+	if !ok {
+		return "", fmt.Errorf("identifier %q: prefix %q is not declared in the context", v, v[:i])
+	}
+	return exp + v[i+1:], nil // the local part is everything after the first colon
+}
+
+// c15ClientRead: [context, entity..., continuation?] -> canonical entities, token.
+// An absent or null "props" / "refs" reads as "none".
+func c15ClientRead(body []byte) (recs []obs.Rec, token string, err error) {
+	var elems []map[string]any
+	if err := json.Unmarshal(body, &elems); err != nil {
+		return nil, "", err
+	}
+	if len(elems) == 0 || elems[0]["id"] != "@context" {
+		return nil, "", fmt.Errorf("first element is not a context")
+	}
+	ns := map[string]string{}
+	if m, ok := elems[0]["namespaces"].(map[string]any); ok {
+		for k, v := range m {
+			if sv, ok := v.(string); ok {
+				ns[k] = sv
+			}
+		}
+	}
+	var ent func(m map[string]any) (model.Ent, error)
+	var val func(v any) (any, error)
+	refs := func(m map[string]any) (map[string]any, error) {
+		out := map[string]any{}
+		for k, v := range m {
+			ek, err := c15ClientExpand(k, ns)
+			if err != nil {
+				return nil, err
+			}
+			switch t := v.(type) {
+			case string:
+				if out[ek], err = c15ClientExpand(t, ns); err != nil {
+					return nil, err
+				}
+			case []any:
+				a := make([]any, len(t))
+				for i, x := range t {
+					sx, ok := x.(string)
+					if !ok {
+						return nil, fmt.Errorf("reference %q has a member that is not a string", k)
+					}
+					if a[i], err = c15ClientExpand(sx, ns); err != nil {
+						return nil, err
+					}
+				}
+				out[ek] = a
+			default:
+				return nil, fmt.Errorf("reference %q is neither a string nor an array", k)
+			}
+		}
+		return out, nil
+	}
+	val = func(v any) (any, error) {
+		switch t := v.(type) {
+		case map[string]any:
+			_, hasProps := t["props"]
+			_, hasRefs := t["refs"]
+			if _, ok := t["id"].(string); ok && (hasProps || hasRefs) {
+				e, err := ent(t)
+				if err != nil {
+					return nil, err
+				}
+				r := map[string]any{"id": e.ID, "props": e.Props, "refs": e.Refs}
+				if e.Deleted {
+					r["deleted"] = true
+				}
+				return r, nil
+			}
+			return t, nil
+		case []any:
+			a := make([]any, len(t))
+			for i, x := range t {
+				var err error
+				if a[i], err = val(x); err != nil {
+					return nil, err
+				}
+			}
+			return a, nil
+		}
+		return v, nil
+	}
+	ent = func(m map[string]any) (model.Ent, error) {
+		e := model.Ent{Props: map[string]any{}, Refs: map[string]any{}}
+		id, ok := m["id"].(string)
+		if !ok {
+			return e, fmt.Errorf("entity without a string id")
+		}
+		var err error
+		if e.ID, err = c15ClientExpand(id, ns); err != nil {
+			return e, err
+		}
+		if p, ok := m["props"].(map[string]any); ok {
+			for k, v := range p {
+				ek, err := c15ClientExpand(k, ns)
+				if err != nil {
+					return e, err
+				}
+				if e.Props[ek], err = val(v); err != nil {
+					return e, err
+				}
+			}
+		}
+		if p, ok := m["refs"].(map[string]any); ok {
+			if e.Refs, err = refs(p); err != nil {
+				return e, err
+			}
+		}
+		if d, ok := m["deleted"].(bool); ok {
+			e.Deleted = d
+		}
+		return e, nil
+	}
+	for _, m := range elems[1:] {
+		if m["id"] == "@continuation" {
+			token, _ = m["token"].(string)
+			continue
+		}
+		e, err := ent(m)
+		if err != nil {
+			return nil, "", err
+		}
+		recs = append(recs, obs.Rec{Ent: model.NormEnt(e)})
+	}
+	return recs, token, nil
 }
 
 func c15CompareSet(want []*model.Version, got []obs.Rec) string {
@@ -458,8 +699,10 @@ func (h *c15HTTPRun) newDataset() (string, bool) {
 }
 
 // fetch follows continuation tokens of GET entities / changes, feeding every
-// response back to the hub's own parser (the round-trip oracle).
-func (h *c15HTTPRun) fetch(dsName, what string, limit int) (recs []obs.Rec, ok bool) {
+// response back to the hub's own parser (the round-trip oracle) and reading it a second
+// time the way a foreign client does (JSON + the response's own context). bodies: the
+// raw responses, in order.
+func (h *c15HTTPRun) fetch(dsName, what string, limit int) (recs, crecs []obs.Rec, bodies [][]byte, ok bool) {
 	tok := ""
 	param := "from"
 	if what == "changes" {
@@ -481,17 +724,18 @@ func (h *c15HTTPRun) fetch(dsName, what string, limit int) (recs []obs.Rec, ok b
 		h.ctx.Out.Stat("http_gets", 1)
 		if r.Panicked != nil || r.Status != 200 {
 			h.viol("get-failed", fmt.Sprintf("GET %s -> %d %v %s", u, r.Status, r.Panicked, c15Short(r.Body)), 200, r.Status, nil)
-			return recs, false
+			return recs, crecs, bodies, false
 		}
 		if !json.Valid(r.Body) {
 			h.viol("serialised-not-json", "GET "+u+" returned a body that is not valid JSON", "JSON", c15Short(r.Body), r.Body)
-			return recs, false
+			return recs, crecs, bodies, false
 		}
+		bodies = append(bodies, r.Body)
 		ents, err, pan := c15ParseStream(h.app.Store, r.Body)
 		h.ctx.Out.Stat("roundtrip_parses", 1)
 		if pan != nil || err != nil {
 			h.viol("roundtrip-unparseable", fmt.Sprintf("the hub's parser does not read back GET %s: err=%v panic=%v", u, err, pan), "parsed", nil, r.Body)
-			return recs, false
+			return recs, crecs, bodies, false
 		}
 		next := ""
 		n := 0
@@ -506,17 +750,26 @@ func (h *c15HTTPRun) fetch(dsName, what string, limit int) (recs []obs.Rec, ok b
 			rec, p := c15Canon(h.app.Store, e)
 			if p != nil {
 				h.viol("roundtrip-unparseable", fmt.Sprintf("entity read back from GET %s cannot be canonicalised: %v", u, p), nil, nil, r.Body)
-				return recs, false
+				return recs, crecs, bodies, false
 			}
 			recs = append(recs, rec)
 			n++
 		}
+		cv, ctok, cerr := c15ClientRead(r.Body)
+		if cerr != nil {
+			h.viol("serialised-unreadable-with-its-own-context", fmt.Sprintf("GET %s: a client that expands the identifiers with the response's own context cannot read it: %v", u, cerr), "readable", cerr.Error(), r.Body)
+			return recs, crecs, bodies, false
+		}
+		if ctok != next {
+			h.viol("roundtrip-differs", fmt.Sprintf("GET %s: continuation token read by a client (%q) differs from the one the hub's parser reads back (%q)", u, ctok, next), ctok, next, r.Body)
+		}
+		crecs = append(crecs, cv...)
 		if limit <= 0 || n == 0 || next == "" || next == tok {
-			return recs, true
+			return recs, crecs, bodies, true
 		}
 		tok = next
 	}
-	return recs, false
+	return recs, crecs, bodies, false
 }
 
 func (h *c15HTTPRun) checkDataset(dsName string, md *model.Dataset) {
@@ -534,22 +787,109 @@ func (h *c15HTTPRun) checkDataset(dsName string, md *model.Dataset) {
 	if msg := c15CompareSet(want, direct); msg != "" {
 		h.viol("stored-differs", "dataset "+dsName+" (Go API listing): "+msg, feedStr(want), recStr(direct), nil)
 	}
+	var entBody, chBody []byte
 	for _, lim := range []int{0, 1, 3, 10} {
-		got, ok := h.fetch(dsName, "entities", lim)
+		got, cgot, bodies, ok := h.fetch(dsName, "entities", lim)
 		if !ok {
 			return
+		}
+		if lim == 0 && len(bodies) == 1 {
+			entBody = bodies[0]
 		}
 		if msg := c15CompareSet(want, got); msg != "" {
 			h.viol("roundtrip-differs", fmt.Sprintf("GET entities (limit %d) parsed back: %s", lim, msg), feedStr(want), recStr(got), nil)
 		}
-		feed, ok := h.fetch(dsName, "changes", lim)
+		if msg := c15CompareSet(want, cgot); msg != "" {
+			h.viol("roundtrip-differs-read-with-response-context", fmt.Sprintf("GET entities (limit %d) expanded with the response's own context: %s", lim, msg), feedStr(want), recStr(cgot), nil)
+		}
+		feed, cfeed, bodies, ok := h.fetch(dsName, "changes", lim)
 		if !ok {
 			return
+		}
+		if lim == 0 && len(bodies) == 1 {
+			chBody = bodies[0]
 		}
 		if !eqSeq(md.Feed(), feed) {
 			h.viol("roundtrip-differs", fmt.Sprintf("GET changes (limit %d) parsed back differs from the stored history", lim), feedStr(md.Feed()), recStr(feed), nil)
 		}
+		if !eqSeq(md.Feed(), cfeed) {
+			h.viol("roundtrip-differs-read-with-response-context", fmt.Sprintf("GET changes (limit %d) expanded with the response's own context differs from what was posted", lim), feedStr(md.Feed()), recStr(cfeed), nil)
+		}
 		h.ctx.Out.Stat("entities_compared", int64(len(got)+len(feed)))
+	}
+	// what the hub serialises is itself a valid payload: feed it to another dataset of the
+	// same hub (as a pipeline with an HTTP source does: the continuation element is for the
+	// reader and is taken off) and read that one
+	h.copyVia(dsName, "entities", entBody, md, false)
+	h.copyVia(dsName, "changes", chBody, md, true)
+}
+
+// c15StripContinuation removes the @continuation elements, leaving every other byte of
+// the elements as the hub wrote them.
+func c15StripContinuation(body []byte) ([]byte, bool) {
+	var elems []json.RawMessage
+	if err := json.Unmarshal(body, &elems); err != nil {
+		return nil, false
+	}
+	var b bytes.Buffer
+	b.WriteByte('[')
+	n := 0
+	for _, e := range elems {
+		var probe struct {
+			ID string `json:"id"`
+		}
+		_ = json.Unmarshal(e, &probe)
+		if probe.ID == "@continuation" {
+			continue
+		}
+		if n > 0 {
+			b.WriteByte(',')
+		}
+		b.Write(e)
+		n++
+	}
+	b.WriteByte(']')
+	return b.Bytes(), true
+}
+
+func (h *c15HTTPRun) copyVia(src, what string, body []byte, md *model.Dataset, wholeFeed bool) {
+	if body == nil {
+		return
+	}
+	payload, ok := c15StripContinuation(body)
+	if !ok {
+		return
+	}
+	dst, ok := h.newDataset()
+	if !ok {
+		return
+	}
+	defer func() { _ = h.app.Do("DELETE", "/datasets/"+dst, nil, nil) }()
+	r := h.app.Do("POST", "/datasets/"+dst+"/entities", payload, nil)
+	h.ctx.Out.Stat("http_posts", 1)
+	h.ctx.Out.Stat("serialised_collections_posted_back", 1)
+	if r.Panicked != nil || r.Status != 200 {
+		h.viol("roundtrip-own-output-rejected", fmt.Sprintf("the hub refuses the collection it serialised itself (GET %s of a dataset, posted to another dataset) -> %d %v %s", what, r.Status, r.Panicked, c15Short(r.Body)), 200, r.Status, payload)
+		return
+	}
+	ds := h.app.Dsm.GetDataset(dst)
+	if ds == nil {
+		return
+	}
+	got, err := obs.Listing(h.app.Store, ds, 0)
+	if err != nil {
+		h.viol("valid-read-error", err.Error(), nil, nil, nil)
+		return
+	}
+	want := md.Latest(-1)
+	if msg := c15CompareSet(want, got); msg != "" {
+		h.viol("roundtrip-copy-differs", fmt.Sprintf("GET %s posted back into another dataset gives other entities: %s", what, msg), feedStr(want), recStr(got), payload)
+	}
+	if wholeFeed {
+		feed, _, err := obs.Feed(h.app.Store, ds, 0, nil, false)
+		if err == nil && !eqSeq(md.Feed(), feed) {
+			h.viol("roundtrip-copy-differs", "GET changes posted back into another dataset gives another history", feedStr(md.Feed()), recStr(feed), payload)
+		}
 	}
 }
 
